@@ -133,11 +133,22 @@ func c06Check(c c06Case) vfResult {
 		vfTreeRestore()
 		SetLimit(defaultLimit)
 		// caller-owned alias slices with spare capacity
+		// caller-owned alias slices: windows of ONE array, so that the spare capacity of one
+		// extension's slice is the beginning of the next extension's aliases
 		backing := make([][]string, len(c.Exts))
+		total := 0
+		for _, e := range c.Exts {
+			total += len(e.Aliases)
+		}
+		all := make([]string, total+8)
+		off := 0
 		for i, e := range c.Exts {
-			b := make([]string, len(e.Aliases), len(e.Aliases)+e.SpareCap)
+			end := off + len(e.Aliases)
+			capEnd := min(end+e.SpareCap, len(all))
+			b := all[off:end:capEnd]
 			copy(b, e.Aliases)
 			backing[i] = b
+			off = end
 		}
 		obs := make([][]c06Obs, len(c.Progs))
 		shared := make([]atomic.Pointer[MIME], len(c.Progs)) // latest result of each goroutine, visible to all
@@ -358,6 +369,9 @@ func c06Gen(t *rapid.T) c06Case {
 			parents = append(parents, fmt.Sprintf("application/x-verif-%d", j))
 		}
 		e.Parent = rapid.SampledFrom(parents).Draw(t, "parent")
+		if rapid.IntRange(0, 3).Draw(t, "param") == 0 {
+			e.Mime += "; version=1" // names are stored verbatim; a parameter is legal
+		}
 		for i, n := 0, rapid.IntRange(0, 2).Draw(t, "nal"); i < n; i++ {
 			e.Aliases = append(e.Aliases, fmt.Sprintf("application/x-verif-alias-%d-%d", k, i))
 		}
